@@ -259,6 +259,8 @@ class MaxSumMessage(Message):
         vals, costs = zip(*self._costs.items())
         r["vals"] = vals
         r["costs"] = costs
+        if hasattr(self, "cycle_id"):
+            r["cycle_id"] = self.cycle_id
         return r
 
     @classmethod
@@ -266,7 +268,10 @@ class MaxSumMessage(Message):
         vals = r["vals"]
         costs = r["costs"]
 
-        return MaxSumMessage(dict(zip(vals, costs)))
+        msg = MaxSumMessage(dict(zip(vals, costs)))
+        if "cycle_id" in r:
+            msg.cycle_id = r["cycle_id"]
+        return msg
 
 
 # Some semantic type definition, to make things easier to read and check:
